@@ -355,9 +355,9 @@ register(Prop('C17', 'seqls lists every selected file exactly once', None, None,
               rule='generated trees (depth <= 4, hidden dirs/files, empty dirs, directory links; aliased/cyclic links for termination only) x flag subsets x mixed arguments x GOMAXPROCS 1/2/16 x workers 1/2/50, each run twice'))
 
 register(Prop('C19', 'the C++ port computes the same results', None, None, special=special.c19_special, level='translation_validation',
-              partial='no for-all statement about the C++ code: the port is compared, on generated inputs of the shared domain, with the Go library whose model carries the theorems',
-              rule='grammar-driven ranges (+ token sweep), frame lists, pad widths/tokens, sequence tuples of the unambiguous domain, directories of uniformly padded sequences x option subsets; Go vs C++ on projected observables'))
-PROPS['C19'].technique = 'translation validation: differential run of the C++ port against the Go library (whose Coq model carries the theorems)'
+              partial='no for-all statement about the C++ code: the port is compared, on generated inputs of the shared domain, with the Go library AND with the extracted Coq model whose theorems (C01-C04, C08-C11) then describe the port on those inputs',
+              rule='grammar-driven ranges (+ token sweep), frame lists, pad widths/tokens, sequence tuples of the unambiguous domain, directories of uniformly padded sequences x option subsets; Go vs C++ vs the extracted Coq model on projected observables'))
+PROPS['C19'].technique = 'translation validation: differential run of the C++ port against the Go library and against the extracted Coq model (which carries the theorems)'
 
 register(Prop('C20', 'handle table keeps an object alive exactly while referenced', None, None, special=special.c20_special,
               partial='the xorshift full-period claim is a Section hypothesis; the Go memory model (atomics, RWMutex) is represented by atomic blocks',
